@@ -57,3 +57,316 @@ pub fn safe_instr(rng: &mut Rng) -> String {
 pub fn straight(rng: &mut Rng, n: usize) -> String {
     (0..n).map(|_| safe_instr(rng)).collect::<Vec<_>>().join(" ")
 }
+
+// ---------------------------------------------------------------------------------------------
+// Structured whole-program generator
+// ---------------------------------------------------------------------------------------------
+
+/// (text, net stack effect) — instructions that cannot fail on arbitrary field elements.
+pub const TOTAL_INSTRS: &[(&str, i32)] = &[
+    ("add", -1), ("sub", -1), ("mul", -1), ("neg", 0), ("eq", -1), ("neq", -1), ("eq.0", 0),
+    ("add.7", 0), ("mul.3", 0), ("sub.1", 0), ("eq.5", 0), ("neq.2", 0),
+    ("dup.0", 1), ("dup.1", 1), ("dup.2", 1), ("dup.4", 1), ("dup.8", 1), ("dup.10", 1),
+    ("dup.15", 1), ("dupw.0", 4), ("dupw.3", 4), ("swap", 0), ("swap.2", 0), ("swap.15", 0),
+    ("swapw", 0), ("swapw.2", 0), ("swapw.3", 0), ("swapdw", 0), ("movup.2", 0), ("movup.3", 0),
+    ("movup.7", 0), ("movup.8", 0), ("movup.9", 0), ("movup.15", 0), ("movdn.2", 0),
+    ("movdn.5", 0), ("movdn.8", 0), ("movdn.12", 0), ("movdn.15", 0), ("movupw.2", 0),
+    ("movupw.3", 0), ("movdnw.2", 0), ("movdnw.3", 0), ("drop", -1), ("dropw", -4), ("padw", 4),
+    ("push.0", 1), ("push.1", 1), ("push.2", 1), ("push.4294967295", 1), ("push.4294967296", 1),
+    ("push.18446744069414584320", 1), ("push.0x0000000000000100", 1), ("push.3.4", 2),
+    ("u32split", 1), ("u32cast", 0), ("u32test", 1), ("u32testw", 1), ("u32wrapping_add", -1),
+    ("u32overflowing_add", 0), ("u32wrapping_sub", -1), ("u32overflowing_sub", 0),
+    ("u32wrapping_mul", -1), ("u32overflowing_mul", 0), ("u32overflowing_add3", -1),
+    ("u32wrapping_add3", -2), ("u32overflowing_madd", -1), ("u32wrapping_madd", -2),
+    ("u32wrapping_add.9", 0), ("u32overflowing_sub.3", 1), ("u32wrapping_mul.5", 0),
+    ("lt", -1), ("lte", -1), ("gt", -1), ("gte", -1), ("is_odd", 0), ("eqw", 1),
+    ("ext2add", -2), ("ext2sub", -2), ("ext2mul", -2), ("ext2neg", 0),
+    ("sdepth", 1), ("clk", 1), ("exp.3", 0), ("exp.u5", 0), ("exp.0", 0), ("exp.1", 0),
+    ("hperm", 0), ("hmerge", -4), ("hash", 0), ("cdrop_safe", -2), ("cswap_safe", -1),
+    ("mem_load.5", 1), ("mem_store.7", -1), ("mem_loadw.9", 0), ("mem_storew.11", 0),
+    ("mem_load", 0), ("mem_store", -2), ("mem_loadw", -1), ("mem_storew", -1),
+    ("mem_stream_safe", 0), ("adv_push.1", 1), ("adv_push.3", 3), ("adv_loadw", 0),
+    ("adv_pipe_safe", 0), ("u32min", -1), ("u32max", -1), ("u32lt", -1), ("u32gte", -1),
+    ("pow2_safe", 0), ("u32shl.3", 0), ("u32shr.7", 0), ("u32rotl.5", 0), ("u32rotr.31", 0),
+    ("u32and_safe", -1), ("u32xor_safe", -1), ("u32or_safe", -1), ("u32not_safe", 0),
+    ("u32div_safe", -1), ("u32mod_safe", -1), ("u32divmod_safe", 0), ("u32popcnt_safe", 0),
+    ("u32clz_safe", 0), ("u32ctz_safe", 0), ("u32clo_safe", 0), ("u32cto_safe", 0),
+    ("ilog2_safe", 0), ("inv_safe", 0), ("div_safe", -1), ("not_safe", 0), ("and_safe", -1),
+    ("or_safe", -1), ("xor_safe", -1), ("assert_safe", 0), ("assert_eq_safe", 0),
+    ("ext2inv_safe", 0), ("ext2div_safe", -2),
+];
+
+/// Expands the `_safe` pseudo-instructions into sequences that establish their preconditions.
+pub fn expand(instr: &str) -> String {
+    match instr {
+        "cdrop_safe" => "push.1 cdrop".into(),
+        "cswap_safe" => "push.0 cswap".into(),
+        "mem_stream_safe" => "push.100 movdn.12 mem_stream movup.12 drop".into(),
+        "adv_pipe_safe" => "push.200 movdn.12 adv_pipe movup.12 drop".into(),
+        "pow2_safe" => "drop push.17 pow2".into(),
+        "u32and_safe" => "u32cast swap u32cast u32and".into(),
+        "u32xor_safe" => "u32cast swap u32cast u32xor".into(),
+        "u32or_safe" => "u32cast swap u32cast u32or".into(),
+        "u32not_safe" => "u32cast u32not".into(),
+        "u32div_safe" => "u32cast push.1 u32or swap u32cast swap u32div".into(),
+        "u32mod_safe" => "u32cast push.1 u32or swap u32cast swap u32mod".into(),
+        "u32divmod_safe" => "u32cast push.1 u32or swap u32cast swap u32divmod".into(),
+        "u32popcnt_safe" => "u32cast u32popcnt".into(),
+        "u32clz_safe" => "u32cast u32clz".into(),
+        "u32ctz_safe" => "u32cast u32ctz".into(),
+        "u32clo_safe" => "u32cast u32clo".into(),
+        "u32cto_safe" => "u32cast u32cto".into(),
+        "ilog2_safe" => "u32cast push.1 u32or ilog2".into(),
+        "inv_safe" => "dup.0 eq.0 add inv".into(),
+        "div_safe" => "dup.0 eq.0 add div".into(),
+        "not_safe" => "eq.0 not".into(),
+        "and_safe" => "eq.0 swap eq.0 and".into(),
+        "or_safe" => "eq.0 swap eq.0 or".into(),
+        "xor_safe" => "eq.0 swap eq.0 xor".into(),
+        "assert_safe" => "push.1 assert".into(),
+        "assert_eq_safe" => "dup.0 dup.0 assert_eq".into(),
+        "ext2inv_safe" => "dup.1 dup.1 eq.0 swap eq.0 and add ext2inv".into(),
+        "ext2div_safe" => "dup.1 dup.1 eq.0 swap eq.0 and add ext2div".into(),
+        "mem_load" => "u32cast mem_load".into(),
+        "mem_store" => "u32cast mem_store".into(),
+        "mem_loadw" => "u32cast mem_loadw".into(),
+        "mem_storew" => "u32cast mem_storew".into(),
+        other => other.into(),
+    }
+}
+
+pub struct ProgGen<'a> {
+    pub rng: &'a mut Rng,
+    /// names of procedures that may be exec'd (no net growth required)
+    pub exec_procs: Vec<String>,
+    /// names of procedures whose body is depth-neutral or consuming (callable)
+    pub call_procs: Vec<String>,
+    /// kernel procedures (syscall targets)
+    pub kernel_procs: Vec<String>,
+    pub allow_calls: bool,
+    /// probability (percent) of a non-binary condition at a decision point
+    pub nonbinary_pct: u64,
+    pub in_proc_locals: u32,
+}
+
+impl<'a> ProgGen<'a> {
+    pub fn new(rng: &'a mut Rng) -> Self {
+        Self {
+            rng,
+            exec_procs: vec![],
+            call_procs: vec![],
+            kernel_procs: vec![],
+            allow_calls: true,
+            nonbinary_pct: 2,
+            in_proc_locals: 0,
+        }
+    }
+
+    fn cond(&mut self) -> String {
+        if self.rng.below(100) < self.nonbinary_pct {
+            format!("push.{}", self.rng.pick(&[2u64, 3, 4294967296, 18446744069414584320]))
+        } else {
+            format!("push.{}", self.rng.below(2))
+        }
+    }
+
+    /// A sequence of `n` total instructions; returns (text, net effect).
+    pub fn straight(&mut self, n: usize) -> (String, i32) {
+        let mut out = Vec::new();
+        let mut net = 0;
+        for _ in 0..n {
+            let (t, d) = *self.rng.pick(TOTAL_INSTRS);
+            out.push(expand(t));
+            net += d;
+        }
+        (out.join(" "), net)
+    }
+
+    pub fn local_op(&mut self) -> String {
+        if self.in_proc_locals == 0 {
+            return String::new();
+        }
+        let i = self.rng.below(self.in_proc_locals as u64);
+        match self.rng.below(4) {
+            0 => format!("loc_store.{}", i),
+            1 => format!("loc_load.{}", i),
+            2 => format!("loc_storew.{}", i),
+            _ => format!("loc_loadw.{}", i),
+        }
+    }
+
+    /// A body with control flow, nesting depth at most `depth`.
+    pub fn body(&mut self, depth: u32, len: usize) -> String {
+        let mut parts: Vec<String> = Vec::new();
+        for _ in 0..len {
+            let k = if depth == 0 { self.rng.below(4) } else { self.rng.below(14) };
+            match k {
+                0..=3 => {
+                    let n = 1 + self.rng.below(6) as usize;
+                    parts.push(self.straight(n).0)
+                }
+                4 => {
+                    let c = self.cond();
+                    let a = self.body(depth - 1, 2);
+                    let b = self.body(depth - 1, 2);
+                    parts.push(format!("{} if.true {} else {} end", c, a, b));
+                }
+                5 => {
+                    let c = self.cond();
+                    let a = self.body(depth - 1, 2);
+                    parts.push(format!("{} if.true {} end", c, a));
+                }
+                6 => {
+                    // counter-controlled while loop; the counter lives in memory
+                    let n = self.rng.below(4);
+                    let addr = 1000 + self.rng.below(50);
+                    let b = self.body(depth - 1, 2);
+                    parts.push(format!(
+                        "push.{n} mem_store.{addr} drop push.{n} neq.0 while.true {b} mem_load.{addr} sub.1 dup.0 mem_store.{addr} neq.0 end",
+                    ));
+                }
+                7 => {
+                    let n = 1 + self.rng.below(4);
+                    let b = self.body(depth - 1, 1);
+                    parts.push(format!("repeat.{} {} end", n, b));
+                }
+                8 => {
+                    if let Some(p) = self.pick_proc(0) {
+                        parts.push(format!("exec.{}", p));
+                    }
+                }
+                9 if self.allow_calls => {
+                    if let Some(p) = self.pick_proc(1) {
+                        parts.push(format!("call.{}", p));
+                    }
+                }
+                10 if self.allow_calls => {
+                    if let Some(p) = self.pick_proc(2) {
+                        parts.push(format!("syscall.{}", p));
+                    }
+                }
+                11 if self.allow_calls => {
+                    if let Some(p) = self.pick_proc(1) {
+                        let which = if self.rng.chance(1, 2) { "dynexec" } else { "dyncall" };
+                        if which == "dynexec" {
+                            parts.push(format!("procref.{} {} dropw", p, which));
+                        } else {
+                            parts.push(format!("procref.{} {} dropw", p, which));
+                        }
+                    }
+                }
+                12 => {
+                    let l = self.local_op();
+                    if !l.is_empty() {
+                        parts.push(l);
+                    }
+                }
+                _ => {
+                    // a while loop whose exit value may be non-binary
+                    let c = self.cond();
+                    let c2 = self.cond();
+                    parts.push(format!("{} while.true push.9 drop {} end", c, c2.replace("push.1", "push.0")));
+                }
+            }
+        }
+        if parts.is_empty() {
+            parts.push("push.1 drop".into());
+        }
+        parts.join(" ")
+    }
+
+    fn pick_proc(&mut self, kind: u32) -> Option<String> {
+        let v = match kind {
+            0 => &self.exec_procs,
+            1 => &self.call_procs,
+            _ => &self.kernel_procs,
+        };
+        if v.is_empty() {
+            None
+        } else {
+            Some(v[self.rng.below(v.len() as u64) as usize].clone())
+        }
+    }
+
+    /// A callable procedure body: net effect forced to ≤ 0 by trailing drops (most of the time).
+    pub fn callable_body(&mut self, len: usize) -> String {
+        let (mut s, net) = self.straight(len);
+        let l = self.local_op();
+        if !l.is_empty() {
+            s = format!("{} {}", s, l);
+        }
+        // worst case every local op pushes 1
+        let mut drops = if net > 0 { net } else { 0 } + 1;
+        if self.rng.chance(1, 12) {
+            drops = 0; // occasionally leave the stack too deep: must fail with BadDepth
+        }
+        for _ in 0..drops {
+            s.push_str(" drop");
+        }
+        s
+    }
+}
+
+/// A whole program (kernel source, program source).
+pub fn gen_program(rng: &mut Rng, with_kernel: bool, depth: u32, len: usize) -> (Option<String>, String) {
+    gen_program_nb(rng, with_kernel, depth, len, 2)
+}
+
+pub fn gen_program_nb(
+    rng: &mut Rng,
+    with_kernel: bool,
+    depth: u32,
+    len: usize,
+    nonbinary_pct: u64,
+) -> (Option<String>, String) {
+    let mut g = ProgGen::new(rng);
+    g.nonbinary_pct = nonbinary_pct;
+    let mut kernel_src = None;
+    if with_kernel {
+        let mut k = String::new();
+        for i in 0..2 {
+            let name = format!("kproc{}", i);
+            g.in_proc_locals = if g.rng.chance(1, 2) { 2 } else { 0 };
+            let body = g.callable_body(3);
+            let caller = if g.rng.chance(1, 2) { "caller dropw padw " } else { "" };
+            k.push_str(&format!("export.{}.{} {}{} end\n", name, g.in_proc_locals, caller, body));
+            g.kernel_procs.push(name);
+        }
+        g.in_proc_locals = 0;
+        kernel_src = Some(k);
+    }
+    let mut src = String::new();
+    let nprocs = 1 + g.rng.below(4);
+    for i in 0..nprocs {
+        let name = format!("p{}", i);
+        let locals = if g.rng.chance(1, 2) { 1 + g.rng.below(3) as u32 } else { 0 };
+        g.in_proc_locals = locals;
+        let callable = g.rng.chance(1, 2);
+        g.allow_calls = false; // procedure bodies: exec only (call inside call is generated below)
+        let body = if callable {
+            g.callable_body(4)
+        } else {
+            g.body(1, 2)
+        };
+        let inner_call = if callable && !g.call_procs.is_empty() && g.rng.chance(1, 3) {
+            format!("call.{} ", g.call_procs[0])
+        } else {
+            String::new()
+        };
+        let inner_sys = if callable && !g.kernel_procs.is_empty() && g.rng.chance(1, 3) {
+            format!("syscall.{} ", g.kernel_procs[0])
+        } else {
+            String::new()
+        };
+        src.push_str(&format!("proc.{}.{} {}{}{} end\n", name, locals, inner_call, inner_sys, body));
+        if callable {
+            g.call_procs.push(name.clone());
+        }
+        g.exec_procs.push(name);
+    }
+    g.in_proc_locals = 0;
+    g.allow_calls = true;
+    let main = g.body(depth, len);
+    src.push_str(&format!("begin {} end", main));
+    (kernel_src, src)
+}
